@@ -91,11 +91,46 @@ impl BuildRecord {
             });
         }
 
+        // These fields are emitted verbatim into '|'-separated BPSV rows, one row
+        // per line: a separator or line break inside a value would produce a
+        // response no client can read.
+        for (field, value) in [
+            ("product", Some(&self.product)),
+            ("version", Some(&self.version)),
+            ("build", Some(&self.build)),
+            ("cdn_path", self.cdn_path.as_ref()),
+        ] {
+            if let Some(value) = value
+                && value.contains(['|', '\n', '\r'])
+            {
+                return Err(DatabaseError::InvalidField {
+                    field: field.to_string(),
+                    build_id: self.id,
+                    reason: "must not contain '|' or line breaks".to_string(),
+                });
+            }
+        }
+
+        // The build number is served in the BuildId!DEC:4 column
+        if !self.build.bytes().all(|b| b.is_ascii_digit()) {
+            return Err(DatabaseError::InvalidField {
+                field: "build".to_string(),
+                build_id: self.id,
+                reason: format!("expected a decimal number, got '{}'", self.build),
+            });
+        }
+
         // Validate MD5 hashes (32 hex characters)
         self.validate_hash("build_config", &self.build_config)?;
         self.validate_hash("cdn_config", &self.cdn_config)?;
         if let Some(ref config) = self.product_config {
             self.validate_hash("product_config", config)?;
+        }
+        // The keyring is served in the KeyRing!HEX:16 column (empty when absent)
+        if let Some(ref keyring) = self.keyring
+            && !keyring.is_empty()
+        {
+            self.validate_hash("keyring", keyring)?;
         }
 
         // Validate content keys (32 hex characters)
